@@ -553,7 +553,13 @@ func genCase(t *rapid.T) Case {
 			v = recipe.Qual(rapid.SampledFrom([]string{"a/d", "b/d", "c/d", "fmt"}).Draw(t, "vpath"), "F").C("Call", recipe.Lit(1000+i))
 		}
 		p.Val = v
-		switch rapid.IntRange(0, 13).Draw(t, "nullside") {
+		switch rapid.IntRange(0, 15).Draw(t, "nullside") {
+		case 14: // a typed nil pointer as value (an optional field left unset)
+			p.ValNull = true
+			p.Val = &recipe.Node{Kind: recipe.KNilStmt}
+		case 15: // a typed nil pointer as key
+			p.KeyNull = true
+			p.Key = &recipe.Node{Kind: recipe.KNilStmt}
 		case 12, 13: // dead on both sides
 			p.KeyNull, p.ValNull = true, true
 			p.Key = rapid.SampledFrom([]*recipe.Node{recipe.Null(), recipe.S().C("List"), recipe.S().C("Add")}).Draw(t, "deadkey").Clone()
